@@ -199,6 +199,8 @@ def op_menu():
     ops.append({"op": "fuse_junctions", "j1": "j2", "j2": ["j3"]})
     ops.append({"op": "fuse_junctions", "j1": "j1", "j2": ["j1", "j2"]})
     ops.append({"op": "fuse_junctions", "j1": "j4", "j2": ["j0"]})
+    ops.append({"op": "fuse_junctions", "j1": "j3", "j2": ["j2"], "scalar": True})
+    ops.append({"op": "fuse_junctions", "j1": "j1", "j2": ["j1"], "scalar": True})   # a junction fused with itself: no-op
     islands = [["j0", "j1", "j2", "j3", "j4"], ["j5", "j6", "j7"], ["j8", "j9"]]
     for isl in islands:
         ops.append({"op": "select_subnet", "names": isl, "island": True})
@@ -257,7 +259,8 @@ def apply_real(net, op):
         if op["j1"] in jidx:
             j2 = [jidx[n] for n in op["j2"] if n in jidx]
             if j2:
-                tb.fuse_junctions(net, jidx[op["j1"]], j2)
+                # "scalar": the second argument given as a single label instead of a list
+                tb.fuse_junctions(net, jidx[op["j1"]], j2[0] if op.get("scalar") else j2)
     elif k == "select_subnet":
         js = [jidx[n] for n in op["names"] if n in jidx]
         net = tb.select_subnet(net, js, include_results=True)
